@@ -1,5 +1,4 @@
 SPECIFICATION Spec
-INVARIANT InvUnambiguous
-INVARIANT InvCanonInjective
 INVARIANT InvTableForms
+INVARIANT InvRenderTotal
 CHECK_DEADLOCK FALSE
